@@ -11,6 +11,7 @@ mod nc09;
 mod nodefam;
 mod nfwd;
 mod nc15;
+mod nmesh;
 mod codec;
 mod beacon;
 mod keys;
@@ -38,6 +39,7 @@ fn dispatch(args: &[String]) -> i32 {
         ("node", "c09") => nc09::run(a(3), a(4)),
         ("node", "fwdsched") => nfwd::run_sched(a(3), a(4), a(5)),
         ("node", "fwdrandom") => nfwd::run_random(n(3), n(4), a(5), a(6), n(7) as usize),
+        ("node", "mesh") => nmesh::run(a(3), a(4), a(5)),
         ("node", "c15") => nc15::run(a(3), a(4)),
         ("node", "vlan") => nfwd::run_vlan(a(3)),
         ("node", "fam") => nodefam::run_fam(a(3), a(4), a(5)),
